@@ -179,3 +179,88 @@ class GET_DEFAULT:
     raises_by_case = {cn: {"Exception": {"only_from_the_factory": "True" if ",factory," in cn and cn.startswith("no-force,no-default") else "False"}}
                       for cn in _gd_cases()}
     frame = ["self", "options"]
+
+
+# ------------------------------------------------------------------------------------ C19 (d): no cross-call state (write-set audit)
+
+import ast as _ast
+import os as _os
+
+_PARSE_PATH = {
+    "utype/parser/base.py": ["BaseParser.__call__", "BaseParser.parse_data", "BaseParser.data_first_parse", "BaseParser.field_first_parse",
+                             "BaseParser.parse_addition", "BaseParser.get_field", "BaseParser._get_field_from", "BaseParser.get_attname"],
+    "utype/parser/field.py": ["ParserField.parse_value", "ParserField.parse_output_value", "ParserField.get_default",
+                              "ParserField.is_required", "ParserField.is_no_input", "ParserField.always_no_input",
+                              "ParserField.is_no_output", "ParserField.always_no_output", "ParserField.get_on_error"],
+    "utype/parser/rule.py": ["Rule.parse", "Rule._parse_seq_args", "Rule._parse_tuple_args", "Rule._parse_map_args", "Rule._parse_contains",
+                             "Rule._parse_type_arg", "LogicalType.logical_parse", "LogicalType.__call__", "LogicalType.__instancecheck__",
+                             "transform_rule"],
+    "utype/parser/cls.py": ["init_dataclass", "transform_dataclass", "ClassParser.make_context", "ClassParser.get_parser"],
+    "utype/parser/func.py": ["FunctionParser.parse_params", "FunctionParser.get_params", "FunctionParser.parse_pos_type",
+                             "FunctionParser.parse_result", "FunctionParser.parse_addition"],
+    "utype/utils/transform.py": None,      # every method of TypeTransformer
+    "utype/utils/functional.py": ["copy_value", "multi"],
+}
+_SHARED_ROOTS = ("self", "cls", "mcs", "parser", "field", "transformer", "t")
+_ALLOWED = {("utype/utils/transform.py", "TypeTransformer.__init__")}     # the per-call transformer initialising itself
+_MUT = {"append", "extend", "insert", "remove", "pop", "clear", "sort", "reverse", "update", "setdefault", "popitem", "add",
+        "discard", "__setitem__", "__delitem__", "__setattr__"}
+
+
+@audit("C19_no_cross_call_state", props=["C19"])
+def _write_sets():
+    """`The outcome of a parse depends only on the declaration, the options and the input`: the functions
+    on the parse path write to NOTHING that outlives the call -- no attribute / item store, setattr, global,
+    or in-place mutator call whose target is rooted at the parser, field, class, transformer or type object
+    (the RuntimeContext and the instance being built are per-call objects and are not in this list)."""
+    from pyvc import REPO
+    rows = []
+    seen = 0
+    for rel, names in _PARSE_PATH.items():
+        tree = _ast.parse(open(_os.path.join(REPO, rel)).read())
+        fs = {}
+        for n in tree.body:
+            if isinstance(n, _ast.FunctionDef):
+                fs[n.name] = n
+            if isinstance(n, _ast.ClassDef):
+                for m in n.body:
+                    if isinstance(m, _ast.FunctionDef):
+                        fs[n.name + "." + m.name] = m
+        for nm in (names if names is not None else [k for k in fs if k.startswith("TypeTransformer.")]):
+            fn = fs.get(nm)
+            if fn is None:
+                rows.append(("found:%s:%s" % (rel, nm), False, "%s:%s not found (renamed?): the audit list is out of date" % (rel, nm)))
+                continue
+            seen += 1
+            if (rel, nm) in _ALLOWED:
+                continue
+            bad = []
+            for n in _ast.walk(fn):
+                tgts = []
+                if isinstance(n, _ast.Assign):
+                    tgts = n.targets
+                elif isinstance(n, (_ast.AugAssign, _ast.AnnAssign)):
+                    tgts = [n.target]
+                elif isinstance(n, _ast.Delete):
+                    tgts = n.targets
+                for t in tgts:
+                    if isinstance(t, (_ast.Attribute, _ast.Subscript)):
+                        root = t
+                        while isinstance(root, (_ast.Attribute, _ast.Subscript)):
+                            root = root.value
+                        if isinstance(root, _ast.Name) and root.id in _SHARED_ROOTS:
+                            bad.append("line %d: store to %s" % (n.lineno, _ast.unparse(t)))
+                if isinstance(n, _ast.Call):
+                    if isinstance(n.func, _ast.Name) and n.func.id in ("setattr", "delattr"):
+                        bad.append("line %d: %s" % (n.lineno, _ast.unparse(n)[:60]))
+                    if isinstance(n.func, _ast.Attribute) and n.func.attr in _MUT and isinstance(n.func.value, _ast.Attribute):
+                        root = n.func.value
+                        while isinstance(root, (_ast.Attribute, _ast.Subscript)):
+                            root = root.value
+                        if isinstance(root, _ast.Name) and root.id in _SHARED_ROOTS:
+                            bad.append("line %d: in-place %s" % (n.lineno, _ast.unparse(n)[:60]))
+                if isinstance(n, (_ast.Global, _ast.Nonlocal)):
+                    bad.append("line %d: %s %s" % (n.lineno, type(n).__name__.lower(), n.names))
+            rows.append(("writes_nothing_shared:%s" % nm, not bad, "%s:%s %s" % (rel, nm, "; ".join(bad) or "no write to shared objects")))
+    rows.append(("functions_scanned", seen >= 60, "%d parse-path functions scanned" % seen))
+    return rows
